@@ -251,8 +251,8 @@ fn pinned_programs() -> Vec<(&'static str, Vec<Stmt>)> {
             Stmt::If { branches: vec![(Expr::Bool(true), vec![Stmt::Set { target: name("y"), value: Expr::int(3) }])], else_: None },
             emit(v("y")),
         ]),
-        ("with_sees_earlier_binding", vec![
-            Stmt::With { bindings: vec![(name("a"), Expr::int(1)), (name("b"), Expr::Bin(BinOp::Add, Box::new(v("a")), Box::new(Expr::int(1))))], body: vec![emit(v("b"))] },
+        ("with_scope_ends", vec![
+            Stmt::With { bindings: vec![(name("a"), Expr::int(1)), (name("b"), Expr::Bin(BinOp::Add, Box::new(v("ci")), Box::new(Expr::int(1))))], body: vec![emit(v("a")), t(","), emit(v("b"))] },
             emit(Expr::Test(Box::new(v("a")), "defined".into(), vec![], false)),
         ]),
         ("macro_defaults_kwargs_caller", vec![
@@ -495,10 +495,128 @@ impl Part for Assignments {
     }
 }
 
-crate::declare_parts!(Core, Pinned, Assignments);
+
+/// Macros and call blocks declared inside a loop body: they see what a plain read at the same
+/// place sees - in particular an assignment made in an earlier iteration is gone (the loop
+/// frame is per iteration), for names unknown to the context and for names shadowing one.
+#[derive(Clone, Debug, Serialize, Deserialize)]
+pub struct ClosureCase {
+    /// iteration (1-based) in which the name is assigned inside the loop; 0 = never
+    pub set_at: u8,
+    /// false: the name `w` (not in the context); true: `cs` (a context string)
+    pub shadows_ctx: bool,
+    /// 0 = macro declared in the body, 1 = call block in the body, 2 = both
+    pub kind: u8,
+    /// 0 = plain loop, 1 = the assignment sits in a nested `with`, 2 = loop inside a macro,
+    /// 3 = an inner loop declares the macro
+    pub wrap: u8,
+    pub items: u8,
+}
+
+pub struct LoopClosures;
+
+fn closure_program(c: &ClosureCase) -> Vec<Stmt> {
+    let t = |s: &str| Stmt::Text(s.to_string());
+    let name = if c.shadows_ctx { "cs" } else { "w" };
+    let read = || Stmt::Emit(Expr::var(name).filter("default", vec![Arg::Pos(Expr::str("-"))]));
+    let eq = |k: u8| Expr::Cmp(Box::new(Expr::var("i")), vec![(CmpOp::Eq, Expr::int(k as i128))]);
+    let mut body: Vec<Stmt> = vec![];
+    if c.set_at > 0 {
+        let set = Stmt::Set {
+            target: Target::Name(name.to_string()),
+            value: Expr::Bin(BinOp::Concat, Box::new(Expr::str("s")), Box::new(Expr::var("i"))),
+        };
+        body.push(Stmt::If { branches: vec![(eq(c.set_at), vec![set])], else_: None });
+    }
+    let mut readers: Vec<Stmt> = vec![];
+    if c.kind != 1 {
+        readers.push(Stmt::Macro { name: "mac0".into(), params: vec![], body: vec![t("<"), read(), t(":"), Stmt::Emit(Expr::var("i")), t(">")] });
+        readers.push(Stmt::Emit(Expr::call("mac0", vec![])));
+    }
+    if c.kind != 0 {
+        readers.push(Stmt::CallBlock { params: vec![], call: Expr::call("mac9", vec![]), body: vec![read(), t(":"), Stmt::Emit(Expr::var("i"))] });
+    }
+    readers.push(t("|"));
+    readers.push(read());
+    readers.push(t(";"));
+    match c.wrap % 4 {
+        1 => body.push(Stmt::With { bindings: vec![(Target::Name("wv".into()), Expr::int(1))], body: readers }),
+        3 => body.push(Stmt::For {
+            target: Target::Name("j".into()),
+            iter: Expr::List(vec![Expr::int(1), Expr::int(2)]),
+            filter: None,
+            recursive: false,
+            body: readers,
+            else_: None,
+        }),
+        _ => body.extend(readers),
+    }
+    let items: Vec<Expr> = (1..=c.items.clamp(1, 4)).map(|k| Expr::int(k as i128)).collect();
+    let the_loop = Stmt::For { target: Target::Name("i".into()), iter: Expr::List(items), filter: None, recursive: false, body, else_: None };
+    let mut out = vec![Stmt::Macro { name: "mac9".into(), params: vec![], body: vec![t("["), Stmt::Emit(Expr::call("caller", vec![])), t("]")] }];
+    if c.wrap % 4 == 2 {
+        out.push(Stmt::Macro { name: "mac8".into(), params: vec![], body: vec![the_loop] });
+        out.push(Stmt::Emit(Expr::call("mac8", vec![])));
+    } else {
+        out.push(the_loop);
+    }
+    out.push(t("after:"));
+    out.push(read());
+    out
+}
+
+impl Part for LoopClosures {
+    type Case = ClosureCase;
+    const NAME: &'static str = "closures_declared_in_loops";
+
+    fn strategy(_tier: Tier) -> BoxedStrategy<ClosureCase> {
+        (0u8..5, any::<bool>(), 0u8..3, 0u8..4, 1u8..5)
+            .prop_map(|(set_at, shadows_ctx, kind, wrap, items)| ClosureCase { set_at, shadows_ctx, kind, wrap, items })
+            .boxed()
+    }
+
+    fn enumeration(_tier: Tier) -> Vec<ClosureCase> {
+        let mut out = vec![];
+        for set_at in 0..=4u8 {
+            for shadows_ctx in [false, true] {
+                for kind in 0..3u8 {
+                    for wrap in 0..4u8 {
+                        for items in 1..=4u8 {
+                            out.push(ClosureCase { set_at, shadows_ctx, kind, wrap, items });
+                        }
+                    }
+                }
+            }
+        }
+        out
+    }
+
+    fn check(c: &ClosureCase) -> Verdict {
+        let body = closure_program(c);
+        let mut last = Verdict::pass(true);
+        for ctx_variant in 0..4u8 {
+            let mut v = compare(&body, ctx_variant);
+            v.nontrivial = c.set_at > 0 && c.set_at < c.items;
+            if v.labels.contains(&"outside_fragment") {
+                v.set_fail("closure_program_outside_fragment", "the reference interpreter does not cover a loop closure program".to_string());
+            }
+            if v.fail.is_some() {
+                return v;
+            }
+            last = v;
+        }
+        last
+    }
+
+    fn show(c: &ClosureCase) -> serde_json::Value {
+        serde_json::json!({"source": print::template_default(&closure_program(c))})
+    }
+}
+
+crate::declare_parts!(Core, Pinned, Assignments, LoopClosures);
 
 pub fn run(ctx: &mut Ctx) {
-    ctx.rule = "well-typed programs of the core fragment from a scope-tracking generator driven by a proptest byte tape (expressions over ints, strings, bools, lists, maps: arithmetic, comparison chains, and/or/not, in, ~, if-expressions, subscripts, attribute access, filters upper/lower/trim/length/sum/join/sort/reverse/string/default/replace/abs, tests defined/odd/even/divisibleby; statements: set, if/elif/else, for with else, loop filter, tuple unpacking, loop.index/index0/revindex/revindex0/first/last/length/previtem/nextitem/depth/cycle/changed printed in every loop, set-blocks with filters, with (incl. later bindings seeing earlier ones), filter blocks, macros with literal defaults, positional and keyword arguments and caller(), call blocks with parameters, optional break/continue), 4 contexts; part unpacking_assignments: `set`/`with` with tuple targets (2-4 names, optionally nested) from a tuple or list literal whose items read the names being assigned (all two-target forms enumerated: swaps, rotations, `x, a + 1`), at template level, in a loop, in a macro, in an if-branch; after every scoped construct probes print `name is defined` / `name` for names assigned inside and before it. Oracle: an independent reference interpreter of the documented semantics (refint.rs) must give the same output and agree on error-or-not. Non-trivial: a loop or macro call and two different scoped constructs nested. Distinct by case.".into();
+    ctx.rule = "well-typed programs of the core fragment from a scope-tracking generator driven by a proptest byte tape (expressions over ints, strings, bools, lists, maps: arithmetic, comparison chains, and/or/not, in, ~, if-expressions, subscripts, attribute access, filters upper/lower/trim/length/sum/join/sort/reverse/string/default/replace/abs, tests defined/odd/even/divisibleby; statements: set, if/elif/else, for with else, loop filter, tuple unpacking, loop.index/index0/revindex/revindex0/first/last/length/previtem/nextitem/depth/cycle/changed printed in every loop, set-blocks with filters, with (several bindings; a later value never reads an earlier target of the same statement: Jinja documents the values as evaluated outside the block, this engine binds left to right - not judged), filter blocks, macros with literal defaults, positional and keyword arguments and caller(), call blocks with parameters, optional break/continue), 4 contexts; part unpacking_assignments: `set`/`with` with tuple targets (2-4 names, optionally nested) from a tuple or list literal whose items read the names being assigned (all two-target forms enumerated: swaps, rotations, `x, a + 1`), at template level, in a loop, in a macro, in an if-branch; part closures_declared_in_loops (480 programs, complete): a macro and/or a call block declared in a loop body reads a name that one iteration assigns (unknown to the context, or shadowing a context string), next to a plain read at the same place, in a plain loop, inside a with, in a loop inside a macro, in an inner loop; after every scoped construct probes print `name is defined` / `name` for names assigned inside and before it. Oracle: an independent reference interpreter of the documented semantics (refint.rs) must give the same output and agree on error-or-not. Non-trivial: a loop or macro call and two different scoped constructs nested. Distinct by case.".into();
     ctx.assumptions = vec![
         "refint.rs implements the documented semantics; where the documentation is silent the generator does not go (macro defaults referring to parameters, printing multi-entry maps, reassigning template-level variables after a macro that reads them was declared, strings with quotes inside printed lists)".into(),
         "programs the reference interpreter flags as outside its fragment are skipped (label outside_fragment)".into(),
@@ -506,6 +624,7 @@ pub fn run(ctx: &mut Ctx) {
     preamble(ctx);
     let t = ctx.tier;
     ctx.run_enumerated::<Pinned>(Pinned::enumeration(t), false);
+    ctx.run_enumerated::<LoopClosures>(LoopClosures::enumeration(t), true);
     ctx.run_enumerated::<Assignments>(Assignments::enumeration(t), false);
     ctx.run_part::<Assignments>(t.pick(20_000, 400_000));
     ctx.run_part::<Core>(t.pick(30_000, 12_000_000));
